@@ -187,6 +187,23 @@ def cmd_check(args, vx):
         except ToolError as e:
             tool_problems.append(str(e))
 
+    # thorough tier: replay the recorded failing inputs of earlier findings on the real code
+    replayed = []
+    if tier == "thorough":
+        try:
+            from . import replay as rpl
+            for r in rpl.replay_findings(vx):
+                if r["property"] != prop:
+                    continue
+                replayed.append({k: r[k] for k in ("id", "status", "ok", "input", "mode", "n", "what")} | {"observed_calls": r["observed"].get("calls"), "observed_errors": r["observed"].get("errors"), "panic": r["observed"].get("panic")})
+                if r["status"] == "fixed" and not r["ok"]:
+                    violations.append({"obligation": f"replay:{r['id']}:{r['what']}", "item": f"recorded input of {r['id']}", "message": f"the input of the repaired defect {r['id']} misbehaves again: {r['what']}",
+                                       "spans": [], "rendered": json.dumps(r["observed"]), "tags": [prop], "site": "", "trie_input": json.dumps(r["input"]), "sample": "replay/T1"})
+                elif r["status"] == "known" and r["ok"]:
+                    tool_problems.append(f"known finding {r['id']} no longer reproduces on the real code: remove it from known_findings.json / scenarios.json")
+        except Exception as e:
+            tool_problems.append(f"replay of recorded findings failed: {e!r}"[:400])
+
     rc = 0
     os.makedirs(os.path.join(vx.BUILD, "replay"), exist_ok=True)
     out_lines = []
@@ -232,6 +249,7 @@ def cmd_check(args, vx):
             "woven_clauses": sum(results[(u, False)].gen.clauses for u in units),
             "canaries": {"woven": canaries_total, "failed_as_required": canaries_failed},
             "macro_output_validation": trie_summaries,
+            "recorded_inputs_replayed_on_real_code": replayed,
             "rewrite_log": rewrites,
             "assumption_scan": {k: v for k, v in assumptions_scan.items() if v},
             "not_covered": pc.get("not_covered", []),
